@@ -16,7 +16,7 @@ import (
 func init() {
 	register(&explore.Prop{
 		ID: "C17", Level: levelMC, Explorer: "E1/E2 over TREE (metamorphic, no reference model)",
-		Rule: "every list of 3 segments over K kinds (<=2 docs each) and of 4 segments (<=1 doc each), and TREE-TERM: every list of 3 one-document segments whose posting for one (field, term) is absent / f1 / f1+loc / f2+loc / f300+2 locs, x every deletion set per segment x every order-preserving hierarchical grouping (Schroeder trees: 3 for k=3, 11 for k=4) x {deletions applied at the innermost merge containing the segment, deletions translated through DocumentNumbers() and applied at the outermost merge}; all results must be observationally identical to the flat merge including statistics; single-segment identity merge([s]) == s for built and already-merged s (statistics compared where the built and merged definitions coincide); " +
+		Rule: "every list of 3 segments over K kinds (<=2 docs each) and of 4 segments (<=1 doc each), TREE-LARGE (a leaf whose term has 1023 / 1024 / 2047 postings next to leaves carrying the same term once: every bracketing, deletions early and late), and TREE-TERM: every list of 3 one-document segments whose posting for one (field, term) is absent / f1 / f1+loc / f2+loc / f300+2 locs, x every deletion set per segment x every order-preserving hierarchical grouping (Schroeder trees: 3 for k=3, 11 for k=4) x {deletions applied at the innermost merge containing the segment, deletions translated through DocumentNumbers() and applied at the outermost merge}; all results must be observationally identical to the flat merge including statistics; single-segment identity merge([s]) == s for built and already-merged s (statistics compared where the built and merged definitions coincide); " +
 			"distinct = (segment list, deletions); evaluations = merge trees evaluated; non-trivial = some term has freq>=2 or occurs in >=2 segments or a document is dropped",
 		Assumptions: []string{"bounded scopes (DESIGN.md 4/9)", "no reference model involved: the oracle is agreement between differently bracketed executions of the real merger", "roaring, vellum, zstd trusted"},
 		Budget:      qBudget, Run: runC17,
@@ -251,6 +251,114 @@ func runC17(c *explore.Ctx) {
 			}
 			return !c.Expired()
 		})
+	}
+	// TREE-LARGE: three leaves of which one carries a term with n postings (n around the multiples
+	// of 1024 that decide the adaptive chunk size) and another the same term once (1-hit after an
+	// inner merge); every bracketing, deletions early and late
+	{
+		scope := "TREE-LARGE"
+		var idx int64
+		ts := trees(0, 3)
+		for _, n := range []int{1023, 1024, 2047} {
+			for pos := 0; pos < 3; pos++ { // where the large leaf stands
+				for dropKind := 0; dropKind < 3; dropKind++ {
+					my := idx
+					idx++
+					if !c.MineIdx(scope, my) || c.Expired() {
+						continue
+					}
+					cas := fmt.Sprintf("%s #%d n=%d large-leaf-at=%d drop=%d", scope, my, n, pos, dropKind)
+					big := gen.Large(n, 0, 1)
+					for j := range big {
+						if j%97 == 0 {
+							big[j] = append(gen.Doc{gen.IDField("L", j)}, big[j]...)
+						}
+					}
+					one := []model.Doc{{gen.IDField("o", 0), {N: "a", Len: 1, Terms: []model.Term{{T: "x", Freq: 1}}}}}
+					// the third leaf carries another term only (dropKind 1: x is 1-hit in merge(one,two) and its
+					// document is deleted there) or x as well
+					other := "y"
+					if dropKind != 1 {
+						other = "x"
+					}
+					two := []model.Doc{{gen.IDField("t", 0), {N: "b", Len: 1, Terms: []model.Term{{T: "x", Freq: 1}}}}, {gen.IDField("t", 1), {N: "a", Len: 1, Terms: []model.Term{{T: other, Freq: 1}}}}}
+					small := [][]model.Doc{one, two}
+					var batches [][]model.Doc
+					si := 0
+					for k := 0; k < 3; k++ {
+						if k == pos {
+							batches = append(batches, big)
+						} else {
+							batches = append(batches, small[si])
+							si++
+						}
+					}
+					var leaves []segment.Segment
+					var counts []int
+					drops := make([][]uint32, 3)
+					bad := false
+					for k, b := range batches {
+						model.SumFreqLen(b)
+						sg, err := build(b, 1025)
+						if err != nil {
+							c.Eval()
+							c.Violate(scope, my, sigOf("C17", "build", "error: "+err.Error()), err.Error(), cas)
+							bad = true
+							break
+						}
+						leaves = append(leaves, sg)
+						counts = append(counts, len(b))
+						if k != pos && dropKind >= 1 && len(b) == 1 {
+							drops[k] = []uint32{0} // the one-document leaf loses its document
+						}
+						if k == pos && dropKind == 2 {
+							drops[k] = []uint32{0, 7}
+						}
+					}
+					if bad {
+						continue
+					}
+					c.Nontrivial()
+					var ref *obs.Obs
+					var refName string
+					for _, t := range ts {
+						for _, late := range []bool{false, true} {
+							if len(t.kids) == 3 && late {
+								continue
+							}
+							c.Eval()
+							name := fmt.Sprintf("%s late=%v", t, late)
+							var nm int64
+							r, err := evalTree(t, leaves, counts, drops, late, true, 1025, &nm)
+							c.R.Transitions += nm
+							if err != nil {
+								c.Violate(scope, my, sigOf("C17", "eval", "error: "+err.Error()), name+": "+err.Error(), cas)
+								bad = true
+								break
+							}
+							o, err := observe(r.seg)
+							if err != nil {
+								c.Violate(scope, my, sigOf("C17", "observe", "error: "+err.Error()), name+": "+err.Error(), cas)
+								bad = true
+								break
+							}
+							if ref == nil {
+								ref, refName = o, name
+								continue
+							}
+							if d := obs.Diff(o, ref, obs.CAll); d != "" {
+								c.Violate(scope, my, sigOf("C17", "bracketing", d), fmt.Sprintf("%s differs from %s: %s", name, refName, d), cas)
+								bad = true
+								break
+							}
+						}
+						if bad {
+							break
+						}
+					}
+				}
+			}
+		}
 	}
 	// single-segment identity
 	for _, m := range []uint32{1025, 1} {
